@@ -90,7 +90,8 @@ def applyOp (listener : Bool) (x : LS) (o : Op) (sk : Bool) : Option LS :=
     | none => none
   | "set" =>
     if sk then some x else
-    match step x.s.cap (.setMax o.n) with
+    -- `SetMaxCount` clamps its argument to `maxCapacity` (`setMaxCount_clamped`)
+    match step x.s.cap (.setMax (if o.n > M then M else o.n)) with
     | some c => some { x with s := ⟨c, x.s.async ++ [.adjust x.sets]⟩, sets := x.sets + 1 }
     | none => none
   | _ => if sk then some x else none
@@ -174,7 +175,7 @@ def semJudge (listener : Bool) : Judge := liftJudge fun input obs => do
     let before := closureL listener 8 acc.cands
     let after := dedupL (before.filterMap (fun x => applyOp listener x o sk))
     let isSet := o.op == "set" && !sk
-    acc := { acc with cands := after, capNow := if isSet then o.n else acc.capNow,
+    acc := { acc with cands := after, capNow := if isSet then (if o.n > M then M else o.n) else acc.capNow,
                       setSince := acc.setSince || isSet,
                       tags := acc.tags ++ [o.op] ++ (if o.race then ["race"] else []) ++ (if sk then ["skipped"] else []) }
     if after.isEmpty && acc.agree then
@@ -214,6 +215,10 @@ def semJudge (listener : Bool) : Judge := liftJudge fun input obs => do
         if sig == "" && sn.cur > M then sig := "semaphore:cur-above-size"
         if sig == "" && quietNow && unitsHeld > acc.capNow then sig := "cap:more-open-than-cap"
         if sig == "" && quietNow && sn.cur != M - acc.capNow + unitsHeld then sig := "setmax:not-applied"
+        -- a shrink still parked although the units in use fit into the new cap: it would have been granted
+        -- (`parked_shrink_means_over_cap`); e.g. an adjustment that can never be applied
+        let parked : Nat := if listener then sn.adjParked else countOps "set" - sn.setDone.length
+        if sig == "" && sn.settled && parked > 0 && unitsHeld ≤ acc.capNow then sig := "setmax:parked-shrink-not-applied"
         if sig == "" && listener && quietNow && acc.prevQuiet && !acc.setSince && (sn.maxOpen : Int) > acc.capNow then
           sig := "cap:accepted-above-cap"
         if sig == "" && listener && quietNow && backlogObs > 0 && openNow < acc.capNow then
